@@ -17,6 +17,7 @@ rc=0
 for p in "$@"; do
   python3 /verif/rules/properties.py "$p" --tier quick > "$S-ev.$p.out" 2>&1; r=$?
   echo "== $p exit=$r"; grep -E "^VIOLATION|^KNOWN|rule=|what:|CHECK-FAILED|BUILD-FAILED|tier=" "$S-ev.$p.out" | head -${MUT_LINES:-12}
+  if [ $r -ne 0 ] && ! grep -qE "^VIOLATION|CHECK-FAILED|BUILD-FAILED" "$S-ev.$p.out"; then echo "  (no verdict line; last output:)"; tail -5 "$S-ev.$p.out" | cut -c1-300; fi
   rm -f "$S-ev.$p.out"
   [ $r -ne 0 ] && rc=1
 done
